@@ -329,8 +329,27 @@ func c09Scenarios(thorough bool) []c09Scn {
 	return out
 }
 
-func c09Class(s c09Scn, sig string) string {
+func c09Class(s c09Scn, sig string, detail interface{}) string {
 	cls := s.kind
+	// did the other side end its own direction before the proxy tore the tunnel down?
+	otherEndedFirst := func(side string) bool {
+		m, _ := detail.(map[string]interface{})
+		order, _ := m["close_order"].([]string)
+		for _, e := range order {
+			if e == "in.close" || e == "out.close" {
+				return false
+			}
+			if strings.HasPrefix(e, side+".") {
+				return true
+			}
+		}
+		return false
+	}
+	if sig == "client-finished-first-but-its-data-was-not-all-delivered" && otherEndedFirst("upstream") {
+		// the same call site as the half-close finding, seen from the other side: the upstream ending
+		// its direction makes ServeTCP return (err = <-errc) before the client's bytes were copied
+		return "client-data-dropped-when-upstream-ended-its-direction-first/" + s.kind
+	}
 	if s.kind == "sni" {
 		// does any payload byte share a segment with the end of the hello?
 		off := 0
@@ -388,7 +407,7 @@ func TestVerifC09Tunnels(t *testing.T) {
 		var res c09Result
 		st := vsched.Explore(vsched.Options{Name: s.String(), Bound: bound, AllowDeadlock: true, Deadline: deadline,
 			OnFail: func(sig string, detail interface{}, choices []int, trace []int) {
-				L.Violation(c09Class(s, sig), map[string]interface{}{"scenario": s.String(), "schedule": choices, "detail": detail})
+				L.Violation(c09Class(s, sig, detail), map[string]interface{}{"scenario": s.String(), "schedule": choices, "detail": detail})
 			}}, c09Body(s, &res))
 		if st.Infra != "" {
 			panic("VERIF-INFRA: " + st.Infra)
